@@ -71,9 +71,9 @@ Section C08.
     Proof.
       induction ps as [|p ps IH]; intros idx st; cbn [pass_named]; [exact I|].
       destruct (p_ann p); [|reflexivity].
-      destruct (kw_get (p_name p) (c_kwargs c)); [apply bind_ped; [apply chk_ped | intro; apply IH]|].
-      destruct (p_default p); [apply bind_ped; [apply chk_ped | intro; apply IH]|].
-      destruct (_ && _); [apply bind_ped; [apply chk_ped | intro; apply IH] | reflexivity].
+      destruct (if takes_keyword p then kw_get (p_name p) (c_kwargs c) else None); [apply bind_ped; [apply chk_ped | intro; apply IH]|].
+      destruct (_ && _); [apply bind_ped; [apply chk_ped | intro; apply IH]|].
+      destruct (p_default p); [apply bind_ped; [apply chk_ped | intro; apply IH] | reflexivity].
     Qed.
 
     Lemma chk_all_ped a : forall l st, ped_out (chk_all check consumes f c inst a l st).
